@@ -34,7 +34,9 @@ def integrity_forms(ctx, algo, data, other_data):
         ("other-algorithm-correct", gb, "either"),
         ("other-algorithm-wrong", wb, "reject"),
         ("multi-without-writer-algorithm-wrong", wb + " " + gc, "reject"),
-        ("multi-containing-writer-algorithm", good + " " + gb, "either"),
+        # every declared digest is correct and one of them is under the writer's own algorithm: the declarations match, the
+        # commit has to succeed (which of the digests the entry then carries is C11's subject, not judged here)
+        ("multi-containing-writer-algorithm", good + " " + gb, "ok-multi"),
         ("multi-without-writer-algorithm", gb + " " + gc, "either"),
         ("multi-with-wrong-writer-hash", wrong + " " + gb, "reject"),
     ]
@@ -182,7 +184,7 @@ def worker(ctx, job):
                             if fexp in ("reject", "either"):
                                 allowed.add("IntegrityError")
                         else:
-                            if fexp == "ok":
+                            if fexp in ("ok", "ok-multi"):
                                 allowed.add("Ok")
                             elif fexp == "reject":
                                 allowed.add("IntegrityError")
